@@ -480,7 +480,7 @@ func (c *Ctx) namexRun() *nameVerdicts {
 			mk = c.MustFunc("calculator/functions", "", "NewDelegatedFunction")
 		}
 		colT := resultType(cctor2)
-		ops := []string{"Add x", "Add X", "Add y", "Remove 0", "Remove 1", "RemoveByName x", "RemoveByName Y", "RemoveByName q", "Clear"}
+		ops := []string{"Add x", "Add X", "Add y", "Remove 0", "Remove 1", "Remove 2", "RemoveByName x", "RemoveByName Y", "RemoveByName q", "Clear"}
 		if kind == "variables" {
 			ops = append(ops, "Locate z", "Locate X", "ClearValues")
 		}
@@ -491,6 +491,12 @@ func (c *Ctx) namexRun() *nameVerdicts {
 				for _, d := range ops {
 					seqs = append(seqs, []string{a, b, d})
 				}
+			}
+		}
+		// longer lists: four entries, then every pair of operations (removing from the front or the middle keeps the order of the rest)
+		for _, a := range ops {
+			for _, b := range ops {
+				seqs = append(seqs, []string{"Add x", "Add X", "Add y", "Add z", a, b})
 			}
 		}
 		key := "list-model-" + kind
@@ -572,10 +578,29 @@ func (c *Ctx) namexRun() *nameVerdicts {
 					note(key, "", where+": "+out.why)
 					break
 				}
-				names, _, why := collectionEntries(c, m, mIface{t: colT, v: col})
+				names, vals, why := collectionEntries(c, m, mIface{t: colT, v: col})
 				if why != "" {
 					note(key, "", where+": "+why)
 					break
+				}
+				// cleared values are nulls, and each variable has its own
+				if f[0] == "ClearValues" {
+					for vi, val := range vals {
+						if p, ok := val.(*mv); !ok || p == nil {
+							note(key, fmt.Sprintf("%s, the value of entry %d is %s; a cleared variable holds a null value, not nothing", where, vi, mRender(val)), "")
+							continue
+						}
+						if t, o := m.Call(c.MustFunc(pkgVariants, "Variant", "AsObject"), val); o.kind == "ok" {
+							if _, isNil := t.(mNilT); !isNil {
+								note(key, fmt.Sprintf("%s, entry %d still holds %s", where, vi, mRender(t)), "")
+							}
+						}
+						for vj := 0; vj < vi; vj++ {
+							if eq, known := m.equal(vals[vj], val); known && eq {
+								note(key, fmt.Sprintf("%s, entries %d and %d hold one and the same value object: assigning to one variable's value in place changes the other", where, vj, vi), "")
+							}
+						}
+					}
 				}
 				var want []string
 				for _, e := range model {
